@@ -1,6 +1,8 @@
 import GramModel.Lemmas.DeBruijn
 import GramModel.Check
+import GramModel.Oracle
 import GramModel.Lemmas.StoreCtx
+import GramModel.Lemmas.Rebase
 
 /-!
 # C18 — checking under a context matches the closed program; contexts are restored
@@ -83,3 +85,101 @@ def C18_lookup_rebase_stmt : Prop :=
 theorem C18_lookup_rebase : C18_lookup_rebase_stmt := by
   intro T o k i h
   rw [ushift_ushift, show i + 1 - (o + k) + k = i + 1 - o by omega]
+
+/-! ## The verdict does not depend on how the context is written -/
+
+/-- re-base entry `i` of a typing context by `k`: `(T, o)` becomes `(T lifted by k, o + k)` -/
+def rebaseT (Γ : TCtxX) (i k : Nat) : TCtxX :=
+  List.mapIdx (fun j (e : Tm × Nat) => if j = i then (ushift 0 k e.1, e.2 + k) else e) Γ
+/-- the same for a definitions context -/
+def rebaseD (Δ : DCtxX) (i k : Nat) : DCtxX :=
+  List.mapIdx (fun j (e : Option (Tm × Nat)) => if j = i then e.map (fun p => (ushift 0 k p.1, p.2 + k)) else e) Δ
+
+/-- **Context representation is immaterial.**  An entry `(T, o)` at position `i` of a context means "`T`
+lifted by `i + 1 - o`".  Writing the same entry `k` binders further in — `(T lifted by k, o + k)`, as long as
+`o + k ≤ i + 1` — changes nothing: the independent checker gives the same answer (same type, same error) for
+every term, at every fuel; likewise weak-head normalisation and the conversion check under a definitions
+context.  (This is the law behind the `programs` suite's C18 oracle, which checks open subterms of generated
+programs under the context as the checker builds it and under the fully re-based one.) -/
+def C18_rebase_invariant_stmt : Prop :=
+  ∀ (f : Nat) (Γ : TCtxX) (Δ : DCtxX) (i k : Nat) (t : Tm),
+    (∀ T o, Γ[i]? = some (T, o) → o + k ≤ i + 1) → (∀ d o, Δ[i]? = some (some (d, o)) → o + k ≤ i + 1) →
+    inferX f (rebaseT Γ i k) (rebaseD Δ i k) t = inferX f Γ Δ t ∧
+    whnfX f (rebaseD Δ i k) t = whnfX f Δ t ∧
+    ∀ u, convX f (rebaseD Δ i k) t u = convX f Δ t u
+theorem C18_rebase_invariant : C18_rebase_invariant_stmt := by
+  intro f Γ Δ i k t hΓ hΔ
+  have hT : Rebase.RebT i k Γ (rebaseT Γ i k) := Rebase.RebT.mapIdx Γ i k hΓ
+  have hD : Rebase.RebD i k Δ (rebaseD Δ i k) := Rebase.RebD.mapIdx Δ i k hΔ
+  exact ⟨Rebase.inferX_reb hT hD t, Rebase.whnfX_reb f i k _ _ t hD,
+    fun u => Rebase.convX_reb f i k _ _ t u hD⟩
+
+/-! Non-vacuity: the context `a : type, x : type = a, p : int, w : a` (outermost first), the entry of `x`
+(position 2: `(type, 1)` / `some (a, 1)`) re-based by 2, on `(z : int) => ((y : x) => y) w` — `x` is looked up
+under the binder `z` in both contexts (typing) and unfolded to `a` there (conversion of `w`'s type with `x`). -/
+example :
+    let Γ : TCtxX := [(.var 10 2, 0), (.int, 0), (.type, 1), (.type, 0)]
+    let Δ : DCtxX := [none, none, some (.var 10 1, 1), none]
+    let t : Tm := .lam 3 false .int (.app (.lam 4 false (.var 11 3) (.var 4 0)) (.var 12 1))
+    rebaseT Γ 2 2 = [(.var 10 2, 0), (.int, 0), (.type, 3), (.type, 0)] ∧
+    rebaseD Δ 2 2 = [none, none, some (.var 10 3, 3), none] ∧
+    inferX 10 (rebaseT Γ 2 2) (rebaseD Δ 2 2) t = .ok (.pi 3 false .int (.var 11 3)) ∧
+    inferX 10 Γ Δ t = .ok (.pi 3 false .int (.var 11 3)) := ⟨rfl, rfl, rfl, rfl⟩
+
+/-- **Closed program = open body under the group's context.**  Checking a one-definition group
+`x : A = d; b` is checking `A` (a type), `d` (at `A`) and `b` under the context extended with
+`(A, 1)` / `some (d, 1)` — the entries `type_check` pushes — and the group's type is the body's type closed by
+the same group. -/
+def C18_let_wrap_stmt : Prop :=
+  ∀ (f : Nat) (Γ : TCtxX) (Δ : DCtxX) (x : Name) (A d b B : Tm),
+    inferX (f+2) Γ Δ (.letg (.cons x A d .nil) b) = .ok (.letg (.cons x A d .nil) B) ↔
+    ((∃ K, inferX f ((A, 1) :: Γ) (some (d, 1) :: Δ) A = .ok K ∧ isTypeX f (some (d, 1) :: Δ) K = .ok ()) ∧
+     (∃ D, inferX f ((A, 1) :: Γ) (some (d, 1) :: Δ) d = .ok D ∧
+        expectX f (some (d, 1) :: Δ) D A .defMismatch = .ok ()) ∧
+     inferX (f+1) ((A, 1) :: Γ) (some (d, 1) :: Δ) b = .ok B)
+theorem C18_let_wrap : C18_let_wrap_stmt := by
+  intro f Γ Δ x A d b B
+  cases f with
+  | zero =>
+    constructor
+    · intro h
+      have : inferX (0+2) Γ Δ (.letg (.cons x A d .nil) b) = .error .fuel := by
+        unfold inferX; simp only [pushGroupX, pushGroupX.go]; unfold inferDefsX; simp only
+        unfold inferX; rfl
+      rw [this] at h; cases h
+    · rintro ⟨⟨K, h, _⟩, _⟩
+      unfold inferX at h; cases h
+  | succ f =>
+    have hp : pushGroupX (.cons x A d .nil) 0 (Γ, Δ) = ((A, 1) :: Γ, some (d, 1) :: Δ) := rfl
+    have hn : inferDefsX (f+1) ((A, 1) :: Γ) (some (d, 1) :: Δ) .nil = .ok () := by
+      unfold inferDefsX; rfl
+    conv => lhs; lhs; unfold inferX
+    simp only [hp]
+    conv in inferDefsX _ _ _ (Defs.cons _ _ _ _) => unfold inferDefsX
+    simp only [hn]
+    cases h1 : inferX (f+1) ((A, 1) :: Γ) (some (d, 1) :: Δ) A with
+    | error e => simp [*]
+    | ok K =>
+      cases h2 : isTypeX (f+1) (some (d, 1) :: Δ) K with
+      | error e => simp [*]
+      | ok u =>
+        cases h3 : inferX (f+1) ((A, 1) :: Γ) (some (d, 1) :: Δ) d with
+        | error e => simp [*]
+        | ok D =>
+          cases h4 : expectX (f+1) (some (d, 1) :: Δ) D A .defMismatch with
+          | error e => simp [*]
+          | ok u' =>
+            cases h5 : inferX (f+1+1) ((A, 1) :: Γ) (some (d, 1) :: Δ) b with
+            | error e => simp [*]
+            | ok B' => simp [*]
+
+/-! Non-vacuity: `x : int = 5; x + 1` — accepted with type `x : int = 5; int`, and the three premises hold. -/
+example :
+    inferX 5 [] [] (.letg (.cons 1 .int (.lit 5) .nil) (.bin .sum (.var 1 0) (.lit 1)))
+      = .ok (.letg (.cons 1 .int (.lit 5) .nil) .int) ∧
+    inferX 3 [(.int, 1)] [some (.lit 5, 1)] .int = .ok .type ∧
+    isTypeX 3 [some (.lit 5, 1)] .type = .ok () ∧
+    inferX 3 [(.int, 1)] [some (.lit 5, 1)] (.lit 5) = .ok .int ∧
+    expectX 3 [some (.lit 5, 1)] .int .int .defMismatch = .ok () ∧
+    inferX 4 [(.int, 1)] [some (.lit 5, 1)] (.bin .sum (.var 1 0) (.lit 1)) = .ok .int :=
+  ⟨rfl, rfl, rfl, rfl, rfl, rfl⟩
